@@ -237,12 +237,18 @@ impl Quantity {
                 })
             };
 
-            let converted = Quantity::from_unit(group_as_unit)
-                .convert_to(&target_unit)
-                .unwrap();
-
-            simplified_unit = simplified_unit * target_unit;
-            factor = factor * converted.value;
+            // The target unit is only a guess (the exponent is derived from the first factor of
+            // the base unit representation). If the group can not be converted to it, leave this
+            // group as it is instead of failing.
+            match Quantity::from_unit(group_as_unit.clone()).convert_to(&target_unit) {
+                Ok(converted) => {
+                    simplified_unit = simplified_unit * target_unit;
+                    factor = factor * converted.value;
+                }
+                Err(_) => {
+                    simplified_unit = simplified_unit * group_as_unit;
+                }
+            }
         }
 
         simplified_unit.canonicalize();
